@@ -1383,6 +1383,21 @@ impl RevisionQueue {
         }
 
         self.revisions[0].store(revision);
+
+        // Still holding `lock`: the queue now contains `revision`.
+        #[cfg(feature = "verif-hooks")]
+        crate::verif::emit(crate::verif::VerifEvent {
+            name: "intern_rev_recorded",
+            key: None,
+            key2: None,
+            args: [
+                self.revisions.len() as u64,
+                revision.as_usize() as u64,
+                0,
+                0,
+            ],
+            text: "",
+        });
     }
 
     /// Returns `true` if the given revision is old enough to be considered stale.
